@@ -1,35 +1,39 @@
-import Sop.Model.Alias
+import Sop.Lemmas.Alias
 /-! # C38 — values returned by reads are private to the caller
 
-`Sop.Model.Alias` is a hand transcription of Go's aliasing in `cache/l1cache.go` (shallow `CopyTo` clones),
-`btree.GetCurrentValue` (`*item.Value`) and `nodeRepositoryBackend.get`; the correspondence run
-(harness/cmd/c38) compares every read of real transactions with it.
+`Sop.Model.Alias` is a hand transcription of Go's aliasing in `cache/l1cache.go` (shallow `CopyTo` clones on every
+path into and out of the L1 node cache: hit, L1-miss/L2-hit fill, fill after a blob load, `populateMru`),
+`btree.GetCurrentValue` (`*item.Value`), `unfetchCurrentValue` and `nodeRepositoryBackend.get` (the three-level lookup
+L1 → L2 → blob); the correspondence run (harness/cmd/c38) compares every read of real transactions with it, with the
+cache tiers evicted separately and together between transactions.
 
-Privacy = non-interference: writing through a value a read returned changes nothing any later operation can
-observe.  `Statement_C38` says so for every history; it is FALSE for reference kinds (`[]byte`, maps, slices,
-pointers) kept in the node (`C38_counterexample`: the L1 clone shares the value cells; and
-`C38_counterexample_durable`: another transaction's commit of an unrelated update marshals the shared cell and
-makes the never-committed mutation durable).  It is proved for value kinds (`C38_private_value_kinds`) and, for
-stores whose values are fetched from value blobs, for every read that has to fetch (`C38_private_fetched`). -/
+Privacy = non-interference: writing through a value a read returned — and, more generally, anything a transaction
+does to what it read without committing it — changes nothing any later operation can observe.  `Statement_C38` says
+so for in-place writes, for every history; it is FALSE for reference kinds (`[]byte`, maps, slices, pointers) kept
+in the node (`C38_counterexample`: every clone shares the VALUE cells; `C38_counterexample_l2_fill`: also the clone the
+L2-hit fill makes; `C38_counterexample_durable`: another transaction's commit of an unrelated update marshals the
+shared cell and makes the never-committed mutation durable).  What is proved, for EVERY history over the
+three-level lookup:
+* `C38_node_private` — the node OBJECT in L1 is never the node object a transaction works on (every fill installs
+  a copy, every hit hands out a copy);
+* `C38_uncommitted_private` (values in the node, no in-place writes) and `C38_uncommitted_private_value_kinds`
+  (value kinds, with in-place writes): every read returns the committed content or the transaction's own update — a
+  rolled-back update never reaches another transaction;
+* `C38_private_fetched` (values fetched from value blobs, any kind, any in-place writes): every read of a key the
+  transaction's cursor is not already on returns the durable content — a fetched value is hung on the transaction's
+  own node object only;
+* `C38_private_value_kinds`: for value kinds in-place writes are unobservable.
+`C38_uncloned_fill_witness`: with the L2-hit fill storing the node it returns (`uncloned`, not the code) the last
+three fail on two tiny histories. -/
 namespace Sop.C38
 open Sop.Alias
-
-/-- contents returned by the reads of a history -/
-def reads (s : St) : List Op → List (Option Nat)
-  | [] => []
-  | .read k kind :: rest => (s.apply (.read k kind)).2 :: reads (s.apply (.read k kind)).1 rest
-  | op :: rest => reads (s.apply op).1 rest
-
-def isMutate : Op → Bool
-  | .mutate _ => true
-  | _ => false
 
 /-- the property at full strength: in-place writes through returned values are unobservable -/
 def Statement_C38 : Prop :=
   ∀ (vnf : Bool) (disk : Disk) (ops : List Op),
     reads { vnf := vnf, disk := disk } ops = reads { vnf := vnf, disk := disk } (ops.filter (fun o => !isMutate o))
 
-/-! ## counterexamples -/
+/-! ## counterexamples (the code as it stands: reference kinds kept in the node) -/
 
 def disk0 : Disk := [(1, 11), (2, 22), (3, 33)]
 
@@ -39,15 +43,15 @@ def jello : List Op :=
 
 theorem C38_counterexample_later_reads :
     reads { vnf := false, disk := disk0 } jello = [some 11, some 77, some 77] ∧
-    reads { vnf := false, disk := disk0 } (jello.filter (fun o => !isMutate o)) = [some 11, some 11, some 11] := by decide
+    reads { vnf := false, disk := disk0 } (jello.filter (fun o => !isMutate o)) = [some 11, some 11, some 11] := by decide +kernel
 
 /-- … and after B commits an update of ANOTHER key, A's rolled-back mutation is on disk: a cold process reads it -/
 def durable : List Op :=
-  [.begin, .read 1 .byRef, .mutate 77, .rollback, .begin, .update 2 55, .commit, .clear, .begin, .read 1 .byRef, .rollback]
+  [.begin, .read 1 .byRef, .mutate 77, .rollback, .begin, .update 2 55, .commit, .clear, .begin, .read 1 .byRef, .rollback, .cold 1]
 
 theorem C38_counterexample_durable :
-    reads { vnf := false, disk := disk0 } durable = [some 11, some 77] ∧
-    get (runFrom { vnf := false, disk := disk0 } durable).1.disk 1 = some 77 := by decide
+    reads { vnf := false, disk := disk0 } durable = [some 11, some 77, some 77] ∧
+    Alias.get (runFrom { vnf := false, disk := disk0 } durable).1.disk 1 = some 77 := by decide +kernel
 
 theorem C38_counterexample : ¬ Statement_C38 := by
   intro h
@@ -55,244 +59,118 @@ theorem C38_counterexample : ¬ Statement_C38 := by
   rw [C38_counterexample_later_reads.1, C38_counterexample_later_reads.2] at this
   exact absurd this (by decide)
 
-/-! ## value kinds: the caller's copy is unreachable -/
+/-- the same sharing through the L1-miss/L2-hit fill: the L1 entry is a clone of the node just unmarshalled from the L2
+payload — it shares the VALUE cells with the transaction that caused the fill (the node object is private, the
+reference-typed values in it are not) -/
+def jelloL2 : List Op :=
+  [.begin, .read 1 .byRef, .rollback, .evict1, .begin, .read 1 .byRef, .mutate 77, .rollback, .begin, .read 1 .byRef, .rollback]
 
-def allByValue : List Op → Bool
-  | [] => true
-  | .read _ kind :: rest => (kind == .byValue) && allByValue rest
-  | _ :: rest => allByValue rest
+theorem C38_counterexample_l2_fill :
+    reads { vnf := false, disk := disk0 } jelloL2 = [some 11, some 11, some 77] := by decide +kernel
 
-theorem fetch_ret (s1 : St) (t : Txn) (n : Node) (k : Nat) : (fetch s1 t n k .byValue).1.ret = none := by
-  unfold fetch; split <;> simp
+/-- **No transaction ever works on the node object the L1 cache holds** — after every history, any value kind, any
+placement, any eviction of any cache tier at any point. -/
+theorem C38_node_private (vnf : Bool) (disk : Disk) (ops : List Op) :
+    sharesNode (runFrom { vnf := vnf, disk := disk } ops).1 = false :=
+  priv_not_shared _ (run_priv ops _ (priv_init vnf disk))
 
-theorem filter_keep (op : Op) (rest : List Op) (h : isMutate op = false) :
-    (op :: rest).filter (fun o => !isMutate o) = op :: rest.filter (fun o => !isMutate o) := by
-  simp [List.filter, h]
+/-- **Fetched values are private.**  In a store whose values live in value blobs, after ANY history — any value kind,
+any in-place writes through returned values by anybody at any time, evictions of any cache tier (L1 node entry, L1
+handles, L2, all) between and inside transactions —, a read of a key by a transaction whose cursor is not already on
+that key returns exactly the durable content, which no history changes: a fetched value is hung on the transaction's
+own node object, never on the one in L1. -/
+theorem C38_private_fetched (disk : Disk) (ops : List Op) (k : Nat) (kind : Kind) (t : Txn)
+    (ht : (runFrom { vnf := true, disk := disk } ops).1.txn = some t) (hcur : t.cur ≠ some k) :
+    ((runFrom { vnf := true, disk := disk } ops).1.apply (.read k kind)).2 = Alias.get disk k := by
+  obtain ⟨hv, hd⟩ := run_vinv ops _ (vinv_init disk)
+  rw [read_fetches _ hv t ht k kind hcur, hd]
 
-theorem filter_drop (op : Op) (rest : List Op) (h : isMutate op = true) :
-    (op :: rest).filter (fun o => !isMutate o) = rest.filter (fun o => !isMutate o) := by
-  simp [List.filter, h]
-
-theorem apply_ret_none (s : St) (op : Op) (h : s.ret = none)
-    (hv : ∀ k kind, op = .read k kind → kind = .byValue) : (s.apply op).1.ret = none := by
-  cases op with
-  | begin => simpa [St.apply] using h
-  | read k kind =>
-    have hk := hv k kind rfl
-    subst hk
-    simp only [St.apply]
-    split
-    · exact h
-    · rename_i t _
-      have hl : (s.node t).1.ret = none := by
-        unfold St.node; split
-        · exact h
-        · unfold St.load; split
-          · exact h
-          · split <;> simpa using h
-      generalize s.node t = p at hl
-      obtain ⟨s1, n⟩ := p
-      simp only at hl ⊢
-      split
-      · split
-        · split
-          · simp
-          · exact fetch_ret s1 _ n k
-        · exact fetch_ret s1 _ n k
-      · split <;> simp
-  | mutate x => simp [St.apply, h]
-  | update k v =>
-    simp only [St.apply]
-    split
-    · exact h
-    · rename_i t _
-      split
-      · exact h
-      · have hl : (s.node t).1.ret = none := by
-          unfold St.node; split
-          · exact h
-          · unfold St.load; split
-            · exact h
-            · split <;> simpa using h
-        generalize s.node t = p at hl
-        obtain ⟨s1, n⟩ := p
-        simpa using hl
-  | commit =>
-    simp only [St.apply]
-    split
-    · exact h
-    · split <;> simpa using h
-  | rollback => simpa [St.apply] using h
-  | clear => simpa [St.apply] using h
+/-- **Uncommitted work is private.**  In a store whose values are in the node, for EVERY history of reads, updates,
+commits, rollbacks, evictions of any cache tier (the L1 node entry, the L1 handles, L2, everything) and reads by a cold
+process — no in-place writes through returned values —, every read returns exactly what the specification map holds:
+the committed content, or the transaction's own update.  In particular an update that was rolled back, and a value
+hung on a slot, never reach another transaction: whatever level of the three-level lookup served the node (L1 hit, L2
+hit, blob), the transaction worked on its own node object. -/
+theorem C38_uncommitted_private (disk : Disk) (ops : List Op) (hm : ∀ op ∈ ops, isMutate op = false) :
+    reads { vnf := false, disk := disk } ops = specReads { committed := disk } ops :=
+  run_u ops _ _ (uinv_init disk) hm
 
 /-- **Value kinds are private.**  When every read returns a value kind (`string`, plain struct), deleting every
-in-place write from a history changes no read, in any placement, with or without cache drops and commits. -/
+in-place write from a history changes no read, in any placement, with or without evictions and commits. -/
 theorem C38_private_value_kinds (ops : List Op) : ∀ (s : St), s.ret = none → allByValue ops = true →
     reads s ops = reads s (ops.filter (fun o => !isMutate o)) := by
   induction ops with
   | nil => intros; rfl
   | cons op rest ih =>
     intro s hr hv
-    cases op with
-    | mutate x =>
+    by_cases hmu : isMutate op = true
+    · cases op <;> simp [isMutate] at hmu
+      rename_i x
       have : (s.apply (.mutate x)).1 = s := by simp [St.apply, hr]
       rw [filter_drop _ _ rfl]
       simp only [reads]
       rw [this]
       exact ih s hr (by simpa [allByValue] using hv)
-    | read k kind =>
-      have hk : kind = .byValue := by
-        simp only [allByValue, Bool.and_eq_true, beq_iff_eq] at hv; exact hv.1
+    · have hmu' : isMutate op = false := by simpa using hmu
+      rw [filter_keep _ _ hmu']
+      have hret : (s.apply op).1.ret = none := by
+        apply apply_ret_none s op hr
+        intro k kind hop
+        subst hop
+        simp only [allByValue, Bool.and_eq_true, beq_iff_eq] at hv
+        exact hv.1
       have hrest : allByValue rest = true := by
-        simp only [allByValue, Bool.and_eq_true] at hv; exact hv.2
-      rw [filter_keep _ _ rfl]
-      simp only [reads]
-      rw [ih _ (apply_ret_none s _ hr (by intro k' kind' h; cases h; exact hk)) hrest]
-    | begin =>
-      rw [filter_keep _ _ rfl]
-      simp only [reads]
-      exact ih _ (apply_ret_none s _ hr (by intro _ _ h; cases h)) (by simpa [allByValue] using hv)
-    | update k v =>
-      rw [filter_keep _ _ rfl]
-      simp only [reads]
-      exact ih _ (apply_ret_none s _ hr (by intro _ _ h; cases h)) (by simpa [allByValue] using hv)
-    | commit =>
-      rw [filter_keep _ _ rfl]
-      simp only [reads]
-      exact ih _ (apply_ret_none s _ hr (by intro _ _ h; cases h)) (by simpa [allByValue] using hv)
-    | rollback =>
-      rw [filter_keep _ _ rfl]
-      simp only [reads]
-      exact ih _ (apply_ret_none s _ hr (by intro _ _ h; cases h)) (by simpa [allByValue] using hv)
-    | clear =>
-      rw [filter_keep _ _ rfl]
-      simp only [reads]
-      exact ih _ (apply_ret_none s _ hr (by intro _ _ h; cases h)) (by simpa [allByValue] using hv)
+        cases op <;> simp_all [allByValue]
+      have := ih (s.apply op).1 hret hrest
+      cases op <;> simp_all [reads, isMutate]
 
-/-- the hypothesis is satisfiable by a non-trivial history; and for it the conclusion is not vacuous -/
+/-- uncommitted work is private for value kinds, also when callers write through what they read -/
+theorem C38_uncommitted_private_value_kinds (disk : Disk) (ops : List Op) (hv : allByValue ops = true) :
+    reads { vnf := false, disk := disk } ops = specReads { committed := disk } (ops.filter (fun o => !isMutate o)) := by
+  rw [C38_private_value_kinds ops _ rfl hv]
+  apply C38_uncommitted_private
+  intro op hop
+  have := (List.mem_filter.1 hop).2
+  simpa using this
+
+/-! ## the variant in which the L1-miss/L2-hit fill stores the node it returns (`uncloned`): NOT the code -/
+
+/-- value kind, values in the node: the node leaves L1 while L2 keeps it; a transaction updates a key and ROLLS BACK;
+the next transaction of the process reads the rolled-back value (the cold process does not) … -/
+def seedUpdate : List Op :=
+  [.begin, .read 1 .byValue, .rollback, .evict1, .begin, .read 1 .byValue, .update 1 55, .rollback,
+   .begin, .read 1 .byValue, .rollback, .cold 1]
+
+/-- … values fetched from value blobs: a read-only transaction writes through the `[]byte` it fetched; the next
+transaction of the process finds that cell hung on the slot -/
+def seedFetched : List Op :=
+  [.begin, .read 1 .byRef, .rollback, .evict1, .begin, .read 1 .byRef, .mutate 77, .rollback,
+   .begin, .read 1 .byRef, .rollback, .cold 1]
+
+/-- the theorems above are about the code (`uncloned = false`); with the uncloned fill both fail, on the tiny histories
+the harness replays first (directed corpus `corpus-evict1-update-rollback`, `corpus-evict1-mutate-vnf`), while the
+model of the code returns the committed content -/
+theorem C38_uncloned_fill_witness :
+    reads { vnf := false, disk := disk0, uncloned := true } seedUpdate = [some 11, some 11, some 55, some 11] ∧
+    reads { vnf := false, disk := disk0 } seedUpdate = [some 11, some 11, some 11, some 11] ∧
+    specReads { committed := disk0 } seedUpdate = [some 11, some 11, some 11, some 11] ∧
+    reads { vnf := true, disk := disk0, uncloned := true } seedFetched = [some 11, some 11, some 77, some 11] ∧
+    reads { vnf := true, disk := disk0 } seedFetched = [some 11, some 11, some 11, some 11] ∧
+    -- and the invariant that fails (`Priv.txn`): the L1 entry IS the transaction's node object
+    sharesNode (runFrom { vnf := false, disk := disk0, uncloned := true } (seedUpdate.take 6)).1 = true ∧
+    sharesNode (runFrom { vnf := false, disk := disk0 } (seedUpdate.take 6)).1 = false := by decide +kernel
+
+/-- the hypotheses are satisfiable by non-trivial histories -/
 def sampleValue : List Op :=
-  [.begin, .read 1 .byValue, .mutate 77, .update 2 55, .commit, .clear, .begin, .read 1 .byValue, .read 2 .byValue, .rollback]
+  [.begin, .read 1 .byValue, .mutate 77, .update 2 55, .commit, .evict1, .begin, .read 1 .byValue, .read 2 .byValue, .update 1 66,
+   .rollback, .evict2, .begin, .read 1 .byValue, .rollback, .clear, .cold 2]
 
 example : allByValue sampleValue = true ∧
-    reads { vnf := false, disk := disk0 } sampleValue = [some 11, some 11, some 55] := by decide
+    reads { vnf := false, disk := disk0 } sampleValue = [some 11, some 11, some 55, some 11, some 55] := by decide +kernel
 
-/-! ## values fetched from value blobs: every fetch is a fresh cell -/
-
-theorem load_disk (s : St) : s.load.1.disk = s.disk ∧ s.load.1.vnf = s.vnf := by
-  unfold St.load
-  split
-  · exact ⟨rfl, rfl⟩
-  · split
-    · exact ⟨rfl, rfl⟩
-    · exact ⟨rfl, rfl⟩
-
-theorem node_disk (s : St) (t : Txn) : (s.node t).1.disk = s.disk ∧ (s.node t).1.vnf = s.vnf := by
-  unfold St.node
-  split
-  · exact ⟨rfl, rfl⟩
-  · exact load_disk s
-
-/-- a store whose values live in value blobs, with no dirty transaction (`update` does nothing there in the model:
-the harness never updates such a store inside a scenario) -/
-def Fetched (s : St) : Prop := s.vnf = true ∧ ∀ t, s.txn = some t → t.dirty = false
-
-theorem fetch_facts (s1 : St) (t : Txn) (n : Node) (k : Nat) (kind : Kind) :
-    (fetch s1 t n k kind).1.disk = s1.disk ∧ (fetch s1 t n k kind).1.vnf = s1.vnf ∧
-    (∀ t', (fetch s1 t n k kind).1.txn = some t' → t'.dirty = t.dirty) ∧
-    (fetch s1 t n k kind).2 = get s1.disk k := by
-  unfold fetch
-  split
-  · rename_i c hc
-    refine ⟨rfl, rfl, ?_, hc.symm⟩
-    intro t' h; simp at h; rw [← h]
-  · rename_i hc
-    refine ⟨rfl, rfl, ?_, hc.symm⟩
-    intro t' h; simp at h; rw [← h]
-
-/-- nothing a transaction does to such a store changes the value blobs, and the invariant is kept -/
-theorem fetched_step (s : St) (h : Fetched s) (op : Op) :
-    Fetched (s.apply op).1 ∧ (s.apply op).1.disk = s.disk := by
-  obtain ⟨hv, hd⟩ := h
-  cases op with
-  | begin => exact ⟨⟨hv, by intro t ht; simp [St.apply] at ht; rw [← ht]⟩, rfl⟩
-  | read k kind =>
-    simp only [St.apply]
-    split
-    · exact ⟨⟨hv, hd⟩, rfl⟩
-    · rename_i t ht
-      have hl := node_disk s t
-      generalize s.node t = p at hl
-      obtain ⟨s1, n⟩ := p
-      simp only at hl ⊢
-      have hv1 : s1.vnf = true := by rw [hl.2]; exact hv
-      simp only [hv1, ↓reduceIte]
-      have hf : Fetched (fetch s1 t n k kind).1 ∧ (fetch s1 t n k kind).1.disk = s.disk := by
-        obtain ⟨f1, f2, f3, _⟩ := fetch_facts s1 t n k kind
-        exact ⟨⟨by rw [f2]; exact hv1, fun t' ht' => by rw [f3 t' ht']; exact hd t ht⟩, by rw [f1]; exact hl.1⟩
-      split
-      · split
-        · exact ⟨⟨by simp, by intro t' ht'; simp at ht'; rw [← ht']; exact hd t ht⟩, by simpa using hl.1⟩
-        · exact hf
-      · exact hf
-  | mutate x =>
-    cases hs : s.ret with
-    | none => simp only [St.apply, hs]; exact ⟨⟨hv, hd⟩, trivial⟩
-    | some a => simp only [St.apply, hs]; exact ⟨⟨hv, hd⟩, trivial⟩
-  | update k v =>
-    simp only [St.apply]
-    split
-    · exact ⟨⟨hv, hd⟩, rfl⟩
-    · simp only [hv, ↓reduceIte]; exact ⟨⟨hv, hd⟩, trivial⟩
-  | commit =>
-    simp only [St.apply]
-    split
-    · exact ⟨⟨hv, hd⟩, rfl⟩
-    · rename_i t ht
-      have hdt := hd t ht
-      split
-      · rename_i n hn hdirty
-        rw [hdt] at hdirty; cases hdirty
-      · exact ⟨⟨hv, by intro t' ht'; simp at ht'⟩, rfl⟩
-  | rollback => exact ⟨⟨hv, by intro t' ht'; simp [St.apply] at ht'⟩, rfl⟩
-  | clear => exact ⟨⟨hv, hd⟩, rfl⟩
-
-theorem fetched_run (ops : List Op) : ∀ s, Fetched s → Fetched (runFrom s ops).1 ∧ (runFrom s ops).1.disk = s.disk := by
-  induction ops with
-  | nil => intro s h; exact ⟨h, rfl⟩
-  | cons op rest ih =>
-    intro s h
-    obtain ⟨h1, h2⟩ := fetched_step s h op
-    obtain ⟨h3, h4⟩ := ih _ h1
-    simp only [runFrom]
-    exact ⟨h3, by rw [h4, h2]⟩
-
-/-- **Fetched values are private.**  In a store whose values live in value blobs, after ANY history (any value
-kind, any in-place writes by anybody), a read that has to fetch — every read except a repeated read of the key the
-same transaction's cursor is still on — returns exactly the durable content, which no history changes. -/
-theorem C38_private_fetched (s0 : St) (h0 : Fetched s0) (ops : List Op) (k : Nat) (kind : Kind) (t : Txn)
-    (ht : (runFrom s0 ops).1.txn = some t) (hcur : ∀ a, t.cur ≠ some (k, a)) :
-    ((runFrom s0 ops).1.apply (.read k kind)).2 = get s0.disk k := by
-  obtain ⟨⟨hv, _⟩, hdisk⟩ := fetched_run ops s0 h0
-  generalize (runFrom s0 ops).1 = s at *
-  simp only [St.apply, ht]
-  have hl := node_disk s t
-  generalize s.node t = p at hl
-  obtain ⟨s1, n⟩ := p
-  simp only at hl ⊢
-  have hv1 : s1.vnf = true := by rw [hl.2]; exact hv
-  simp only [hv1, ↓reduceIte]
-  have hf : (fetch s1 t n k kind).2 = get s0.disk k := by
-    rw [(fetch_facts s1 t n k kind).2.2.2, hl.1, hdisk]
-  split
-  · rename_i k' a hc
-    split
-    · rename_i hk; subst hk; exact absurd hc (hcur a)
-    · exact hf
-  · exact hf
-
-/-- non-vacuity: a fetched store, someone writes through a `[]byte` it read, the next transaction reads the key -/
-example : Fetched { vnf := true, disk := disk0 } ∧
-    reads { vnf := true, disk := disk0 } jello = [some 11, some 11, some 11] := by
-  refine ⟨⟨rfl, by intro t h; cases h⟩, by decide⟩
+/-- a fetched store: someone writes through a `[]byte` it read, after an eviction of the L1 entry; the next transaction
+reads the key -/
+example : reads { vnf := true, disk := disk0 } jelloL2 = [some 11, some 11, some 11] ∧
+    reads { vnf := true, disk := disk0 } jello = [some 11, some 11, some 11] := by decide +kernel
 
 end Sop.C38
